@@ -23,7 +23,8 @@ PROPS = "PdshVerif.Props.C10"
 MANIFEST = dict(
     engine="wcoll",
     technique="Lean 4 proof (termination of include reading for every include graph by a fuel-sufficiency "
-              "invariant, read-once, source order, error on unreadable, line splitting) + differential "
+              "invariant, read-once, source order, error on unreadable, byte-level reader: fgets pieces glued = whole lines, "
+              "include lookup in the command-line file's directory at every depth) + differential "
               "correspondence of the real pdsh binary over generated file trees against the compiled model",
     text="Theorems in lean/PdshVerif/Props/C10.lean about a hand-written model of wcoll.c and of the -w/^file/-/"
          "WCOLL processing of opt.c (virtual file system, fgets with LINEBUFSIZE regenerated from /repo); the real "
@@ -730,6 +731,11 @@ def pinned_cases(base, linebuf):
         add("lookalike:%d" % i, {"t/A": (True, "a1\n" + bad + "\na2\n"), "t/B": (True, "b1\n"), "t/C": (True, "c1\n"),
                                  "t/\"B\"": (True, "q1\n"), "t/<B>": (True, "angle1\n"), "t/B#c": (True, "hash1\n")},
             [("f", "t/A")], ["^t/A"], stream="malformed")
+    # a lone `-` inside a list is NOT stdin (Props/C10 `dash_inside_list_is_not_stdin`); `[rcmd_type:][user@]host` words
+    for i, (w, sin) in enumerate([("w1,-", "s1\n"), ("-,w1", "s1\n"), ("w1,^-", "s1\n"), ("^-,^-", "s1\n"), ("user@h1", None),
+                                  ("exec:h2", None), ("exec:user@h3", None), ("h4,user@h5", None), ("a@b:c", None),
+                                  ("h6::x", None), (" h7", None), ("^ t/B", None)]):
+        add("word-forms:%d" % i, {"t/A": (True, "a1\n"), "t/B": (True, "b1\n")}, [("w", w)], [w], stdin=sin, stream="malformed")
     # ---- G. missing / unreadable at every depth (an ERROR, never a shorter list), also behind hosts already read
     chain = graphs["chain"]
     for depth, victim in enumerate("ABCD"):
@@ -1195,7 +1201,16 @@ def run(ctx):
     ctx.lean_build([PROPS, "pdshmodel"])
     ctx.audit(PROPS)
     cov = {"evaluations": 0, "distinct_nontrivial": 0, "samples": [],
-           "rule": "cases = generated file trees (1-12 files in the top file's directory, a sub-directory or elsewhere; "
+           "rule": "PINNED FIRST (checks/c10.py pinned_cases, no randomness, ~330 cases in every run): every source kind alone and in "
+                   "every ordered pair x WCOLL unset/set x separate/comma-joined options; WCOLL alone naming a good/missing/"
+                   "unreadable/empty file or `-`; every include-name spelling (bare, sub/, .hid, ..two, .d/, ./, ../, absolute, "
+                   "trailing blanks, tab separator) x every command-line style (relative, ./, absolute, ../) with decoys where a "
+                   "wrong lookup lands; nested lookups (directory of the COMMAND-LINE file); chain/diamond/twice/cycle/cycle-to-top/"
+                   "self graphs x 3 source positions; one file under two spellings; line lengths k*(LINEBUFSIZE-1)+{-1,0,+1}, k=1,2,3 "
+                   "followed by a line / last unterminated / last terminated / in an included file / stdin / WCOLL / comment tail / all "
+                   "blank; lexical forms incl. CR; #include look-alikes; missing and unreadable files at every depth x 5 source "
+                   "positions; more skipped duplicates than descriptors (3 shapes x 3 ways to name the top file); 20 and 60 file "
+                   "sources on one command line under 40 descriptors.  THEN cases = generated file trees (1-12 files in the top file's directory, a sub-directory or elsewhere; "
                    "include graphs chain/tree/diamond/cycle/cycle-to-top/self/random; include names bare, sub/NAME, "
                    "./, ../, absolute, and names that merely start with dots (.extraB, ..racksB, .d/listB: hidden "
                    "files/sub-directories, with decoy files of the same name in the current directory); pdsh runs in a "
